@@ -22,12 +22,12 @@ CHUNK = {"quick": 16, "thorough": 64}
 PROBES = ["keylen_2", "keylen_3_15", "keylen_16_100", "keylen_101_255", "keylen_256", "periodic_key", "opts_1", "opts_2",
           "opts_3", "opts_4", "container_xorpe", "area_at_0", "stray_marker_before_area", "fault_in_settings", "fault_in_padding", "fault_in_checksum",
           "fault_in_marker", "fault_in_guard_settings", "fault_checksum_delta", "fault_checksum_zero", "fault_checksum_absent", "rejected_under_fault",
-          "recovered_under_fault", "metadata_only", "entry_iter"]
+          "recovered_under_fault", "metadata_only", "entry_iter", "history_genuine_then_corrupted", "history_corrupted_then_genuine"]
 RULE = ("seeded plans: settings list (1-40 records, zero-padded to 6144) masked with an environmental key of length 2..256 "
         "(each length drawn uniformly; aperiodic or periodic), every non-empty subset of the four guard options, protected "
         "area at offset 0..3000 in random filler, raw or inside a XorEncoded PE; 35% of runs inject 1-2 storage faults "
         "(bit flips in settings / padding (key-bearing runs) / checksum / marker / guard settings, or a wrong stored "
-        "checksum). non-trivial = every run (each performs a key search and checksum validation); distinct = digest")
+        "checksum); 55% of those are two-step histories in one process (genuine image then its corrupted copy, or the reverse). non-trivial = every run (each performs a key search and checksum validation); distinct = digest")
 ASSUMPTIONS = [
     "configurations are zero-padded to the 6144-byte patch area (the n-gram key search needs the zero runs)",
     "environmental keys are compared modulo tiling; all-zero keys are not generated (nothing is masked)",
@@ -101,6 +101,11 @@ def generate(rng, tier, index):
                    "marker": rng.choice([6138 + rng.randint(0, 5), 6144 + rng.randint(0, 5)]),
                    "guard_settings": 6144 + rng.randint(6, 8 * len(guard))}[w]
             plan["faults"].append({"where": w, "rel": rel, "mask": 1 << rng.randint(0, 7)})
+        r = rng.random()
+        if r < 0.35:
+            plan["prior"] = "genuine_first"
+        elif r < 0.55:
+            plan["prior"] = "corrupted_first"
     return plan
 
 
@@ -158,11 +163,43 @@ def ref_unmask_guard(view: bytes, cfg_off: int):
     return masked_cfg, masked_guard, guard, recs, stored
 
 
+def _strip_faults(plan):
+    import copy
+    p = copy.deepcopy(plan)
+    p["faults"] = []
+    p["guards"][0]["checksum_delta"] = 0
+    p["guards"][0].pop("checksum_mode", None)
+    p.pop("prior", None)
+    return p
+
+
 def execute(plan: dict) -> Result:
-    from dissect.cobaltstrike.beacon import BeaconConfig
-    from dissect.cobaltstrike.guardrails import iter_guardrail_configs_with_beacon
+    """A run is one extraction, or - for faulty images with a "prior" - a two-step history in one process: the genuine
+    image and its corrupted copy (same masked configuration) are extracted one after the other, in either order; the
+    verdict on each must be what it would be alone (nothing remembered from the first may decide the second)."""
     res = Result()
     res.nontrivial = True
+    prior = plan.get("prior")
+    if prior == "genuine_first":
+        res.probes["history_genuine_then_corrupted"] += 1
+        _stage(_strip_faults(plan), res, "1st:")
+        if res.discarded or res.violations:
+            return res
+        _stage(plan, res, "2nd:")
+    elif prior == "corrupted_first":
+        res.probes["history_corrupted_then_genuine"] += 1
+        _stage(plan, res, "1st:")
+        if res.discarded or res.violations:
+            return res
+        _stage(_strip_faults(plan), res, "2nd:")
+    else:
+        _stage(plan, res, "")
+    return res
+
+
+def _stage(plan: dict, res: Result, stage: str) -> Result:
+    from dissect.cobaltstrike.beacon import BeaconConfig
+    from dissect.cobaltstrike.guardrails import iter_guardrail_configs_with_beacon
     raw, view, area = build(plan)
     g = plan["guards"][0]
     key = unhx(g["env_key"])
@@ -197,6 +234,12 @@ def execute(plan: dict) -> Result:
         res.probes["fault_checksum_delta"] += 1
         res.faults["wrong_stored_checksum"] += 1
 
+    _violate = res.violate
+
+    def violate(sig, msg, plan=None):
+        # a verdict that is only wrong as the second step of a history gets its own signature
+        _violate(tuple(sig) + (("after_" + ("genuine" if faulty else "corrupted"),) if stage == "2nd:" else ()), stage + msg, plan)
+
     budget = Budget(60_000_000)
     got = None
     with IoSeam(budget=budget) as seam:
@@ -213,10 +256,10 @@ def execute(plan: dict) -> Result:
         except ValueError as e:
             got = ("ValueError", str(e))
         except ReadBudgetExceeded:
-            res.violate(("C17", "no_termination", plan["entry"]), "extraction did not terminate")
+            violate(("C17", "no_termination", plan["entry"]), "extraction did not terminate")
             return res
         except Exception as e:
-            res.violate(("C17", "exception", type(e).__name__, plan["entry"]), f"{plan['entry']} raised {e!r}")
+            violate(("C17", "exception", type(e).__name__, plan["entry"]), f"{plan['entry']} raised {e!r}")
             return res
 
     def judge_reported(gr, cfg_block, tag):
@@ -225,16 +268,16 @@ def execute(plan: dict) -> Result:
         unmasked = gr.unmasked_beacon_config
         k = gr.payload_xor_key or b""
         if builder.ref_payload_checksum(unmasked) + 1 != stored:
-            res.violate(("C17", "reported_with_checksum_mismatch", tag),
+            violate(("C17", "reported_with_checksum_mismatch", tag),
                         f"configuration reported although checksum(unmasked)+1 = {builder.ref_payload_checksum(unmasked) + 1:#x} "
                         f"!= stored {stored:#x} (reported checksum {gr.checksum:#x}, key {k.hex()[:40]})")
             return False
         if unmasked != builder.xor1(builder.xor_tile(masked_cfg, k), 0x2E):
-            res.violate(("C17", "unmasked_not_consistent_with_key", tag),
+            violate(("C17", "unmasked_not_consistent_with_key", tag),
                         "reported unmasked configuration is not masked ^ 0x2e ^ tile(reported key)")
             return False
         if cfg_block is not None and cfg_block != unmasked:
-            res.violate(("C17", "config_block_differs_from_unmasked", tag), "config_block != guardrails.unmasked_beacon_config")
+            violate(("C17", "config_block_differs_from_unmasked", tag), "config_block != guardrails.unmasked_beacon_config")
             return False
         return True
 
@@ -248,7 +291,7 @@ def execute(plan: dict) -> Result:
         gr = bc.guardrails
         res.log.log("bc", bool(gr), bc.config_block[:32], gr.payload_xor_key if gr else None)
         if gr is None:
-            res.violate(("C17", "plain_config_reported", plan["entry"]),
+            violate(("C17", "plain_config_reported", plan["entry"]),
                         f"a configuration was reported without Guardrails metadata (xorkey={bc.xorkey!r})")
             return res
         ok = judge_reported(gr, bc.config_block, plan["entry"])
@@ -258,24 +301,24 @@ def execute(plan: dict) -> Result:
         if not ok:
             return res
         if bc.config_block != want_cfg:
-            res.violate(("C17", "wrong_config", plan["entry"]), "recovered configuration differs from the original")
+            violate(("C17", "wrong_config", plan["entry"]), "recovered configuration differs from the original")
             return res
         got_settings = [(s.index.value, s.type.value, s.length, bytes(s.value)) for s in bc.settings_tuple]
         if got_settings != want_settings:
-            res.violate(("C17", "wrong_settings", plan["entry"]), "decoded settings differ from the original list")
+            violate(("C17", "wrong_settings", plan["entry"]), "decoded settings differ from the original list")
         if builder.xor_tile(bytes(6144), gr.payload_xor_key or b"") != builder.xor_tile(bytes(6144), key):
-            res.violate(("C17", "wrong_key", plan["entry"]),
+            violate(("C17", "wrong_key", plan["entry"]),
                         f"payload_xor_key {gr.payload_xor_key.hex()[:60]} is not the environmental key {key.hex()[:60]} (mod tiling)")
         got_guard = [(s.option.value, s.type.value, s.length, bytes(s.value)) for s in gr.settings]
         if got_guard[:-1] != want_guard or got_guard[-1][0] != 9:
-            res.violate(("C17", "wrong_guard_settings", plan["entry"]), f"guard settings {got_guard} != {want_guard} + checksum")
+            violate(("C17", "wrong_guard_settings", plan["entry"]), f"guard settings {got_guard} != {want_guard} + checksum")
         if gr.checksum != builder.ref_payload_checksum(want_cfg) + 1:
-            res.violate(("C17", "wrong_checksum", plan["entry"]), f"checksum {gr.checksum:#x} reported")
+            violate(("C17", "wrong_checksum", plan["entry"]), f"checksum {gr.checksum:#x} reported")
         if (gr.beacon_config_offset, gr.guard_config_offset) != (area, area + 6144):
-            res.violate(("C17", "wrong_offsets", plan["entry"]),
+            violate(("C17", "wrong_offsets", plan["entry"]),
                         f"offsets ({gr.beacon_config_offset}, {gr.guard_config_offset}) != ({area}, {area + 6144})")
         if bc.xorkey != b"\x2e":
-            res.violate(("C17", "wrong_xorkey", plan["entry"]), f"xorkey {bc.xorkey!r}")
+            violate(("C17", "wrong_xorkey", plan["entry"]), f"xorkey {bc.xorkey!r}")
     elif got[0] == "iter":
         lst = got[1]
         res.log.log("iter", len(lst), [bool(x.unmasked_beacon_config) for x in lst])
@@ -285,28 +328,32 @@ def execute(plan: dict) -> Result:
             else:
                 res.probes["metadata_only"] += 1
                 if gr.payload_xor_key is not None:
-                    res.violate(("C17", "key_without_config", "iter"), "payload_xor_key set but no unmasked configuration")
+                    violate(("C17", "key_without_config", "iter"), "payload_xor_key set but no unmasked configuration")
         if not faulty:
             hit = [x for x in lst if x.beacon_config_offset == area]
             if not hit:
-                res.violate(("C17", "not_found", "iter"), f"protected area at {area} not reported at all")
+                violate(("C17", "not_found", "iter"), f"protected area at {area} not reported at all")
             elif not hit[0].unmasked_beacon_config:
-                res.violate(("C17", "not_recovered", "iter"),
+                violate(("C17", "not_recovered", "iter"),
                             f"guard metadata found but configuration not recovered (key length {L})")
             elif hit[0].unmasked_beacon_config != want_cfg:
-                res.violate(("C17", "wrong_config", "iter"), "recovered configuration differs from the original")
+                violate(("C17", "wrong_config", "iter"), "recovered configuration differs from the original")
     else:
         res.log.log("ValueError")
         if faulty:
             res.probes["rejected_under_fault"] += 1
         else:
-            res.violate(("C17", "not_recovered", plan["entry"], "keylen<=16" if L <= 16 else "keylen>16"),
+            violate(("C17", "not_recovered", plan["entry"], "keylen<=16" if L <= 16 else "keylen>16"),
                         f"fault-free Guardrails payload (key length {L}, {len(g['guard'])} guard options, area at {area}, "
                         f"{plan['container']}) was not recovered: ValueError({got[1]!r})")
     return res
 
 
 def candidates(plan: dict):
+    if plan.get("prior"):
+        q = dict(plan)
+        q.pop("prior")
+        yield q
     yield from core.shrink_list(plan, ["faults"])
     yield from core.shrink_list(plan, ["guards", 0, "settings"], min_len=1)
     yield from core.shrink_list(plan, ["guards", 0, "guard"], min_len=1)
